@@ -120,7 +120,13 @@ func descrFrame(i int) []byte {
 }
 
 func searchFrame(i int) []byte {
-	return knxnet.AllocAndPack(&knxnet.SearchRes{Control: knxnet.HostInfo{Protocol: 1, Address: knxnet.Address{10, 0, 0, byte(i)}, Port: 3671},
+	// (several devices announce the SAME control endpoint - devices behind one NAT, route-back endpoints 0.0.0.0:0 - every
+	// response is a response of its own all the same)
+	ctl := knxnet.HostInfo{Protocol: 1, Address: knxnet.Address{10, 0, 0, byte(i % 2)}, Port: 3671}
+	if i%3 == 0 {
+		ctl = knxnet.HostInfo{Protocol: 1}
+	}
+	return knxnet.AllocAndPack(&knxnet.SearchRes{Control: ctl,
 		DescriptionB: knxnet.DescriptionBlock{DeviceHardware: knxnet.DeviceInformationBlock{Type: 1, Medium: 2, HardwareAddr: make([]byte, 6),
 			FriendlyName: "resp-" + strconv.Itoa(i)}, SupportedServices: knxnet.SupportedServicesDIB{Type: 2}}})
 }
@@ -154,6 +160,14 @@ func frameFor(kind string, i int) []byte {
 		return descrFrame(i)
 	case "search":
 		return searchFrame(i)
+	case "cut-descr", "cut-search":
+		// the awaited answer, cut short by eight octets while its header still announces the whole: malformed (a receiver
+		// that believes the header completes it with whatever an earlier, longer datagram left in its buffer)
+		fr := descrFrame(i)
+		if kind == "cut-search" {
+			fr = searchFrame(i)
+		}
+		return fr[:len(fr)-8]
 	case "alien-descr":
 		return alienFrame("descr", i)
 	case "alien-search":
@@ -372,7 +386,7 @@ func TestC20(t *testing.T) {
 			case 2: // late (well after the timeout)
 				sc = []scriptEntry{{tus + tus/2 + 40000, "descr"}}
 			case 3: // other / malformed frames first, then the answer, then a repeat
-				sc = []scriptEntry{{0, "other"}, {100, "malformed"}, {tus / 4, "descr"}, {tus / 3, "descr"}}
+				sc = []scriptEntry{{0, "other"}, {100, "malformed"}, {200, "alien-descr"}, {300, "cut-descr"}, {tus / 4, "descr"}, {tus / 4 + 100, "cut-descr"}, {tus / 3, "descr"}}
 			case 4: // a flood of unrelated frames, no answer
 				for i := 0; i < 20; i++ {
 					sc = append(sc, scriptEntry{i * tus / 25, kinds[1+i%2]})
@@ -403,6 +417,8 @@ func TestC20(t *testing.T) {
 					ds[i].K = "search"
 				} else if e.K == "search" {
 					ds[i].K = "descr"
+				} else if e.K == "cut-descr" {
+					ds[i].K = "cut-search"
 				} else if e.K == "alien-descr" {
 					ds[i].K = "alien-search"
 				}
@@ -539,13 +555,17 @@ func TestC20Table(t *testing.T) {
 			want = "search"
 		}
 		var script []scriptEntry
-		for _, a := range row.Arr {
+		for ai, a := range row.Arr {
 			k := a.Kind
 			switch k {
 			case "match":
 				k = want
 			case "other":
 				k = "alien-" + want
+			case "malformed":
+				if ai%2 == 1 {
+					k = "cut-" + want
+				}
 			}
 			script = append(script, scriptEntry{D: int((time.Duration(a.T)*U + U/4) / time.Microsecond), K: k})
 		}
@@ -568,13 +588,17 @@ func TestC20Table(t *testing.T) {
 			// discovery first opens a socket and joins the group (milliseconds, more on a loaded machine): its ticks are
 			// twice as long, so that an arrival of tick 0 comes 10 ms after the call
 			script = script[:0]
-			for _, a := range row.Arr {
+			for ai, a := range row.Arr {
 				k := a.Kind
 				switch k {
 				case "match":
 					k = want
 				case "other":
 					k = "alien-" + want
+				case "malformed":
+					if ai%2 == 1 {
+						k = "cut-" + want
+					}
 				}
 				script = append(script, scriptEntry{D: int((time.Duration(a.T)*2*U + U/2) / time.Microsecond), K: k})
 			}
